@@ -296,7 +296,8 @@ fn check_unlisted_consts(cx: &Cx, sink: &mut Sink) -> (usize, Vec<String>) {
         }
     }
     let _ = types;
-    if cands.is_empty() {
+    let splits = vchecks::registries::scan_split_methods();
+    if cands.is_empty() && splits.is_empty() {
         return (0, Vec::new());
     }
     let gen_dir = "/verif/target/c17";
@@ -305,6 +306,13 @@ fn check_unlisted_consts(cx: &Cx, sink: &mut Sink) -> (usize, Vec<String>) {
     let mut src = String::from("{\n");
     for (ty, name) in &cands {
         src.push_str(&format!("    println!(\"CONST {ty} {name} {{}}\", {ty}::{name}.0 as u64);\n"));
+    }
+    // typed accessors of SignatureScheme: over all 65536 values, a HashAlgorithm result is the high byte, a SignAlgorithm the low byte
+    for (m, ret) in &splits {
+        let expect = if ret == "HashAlgorithm" { "(x >> 8) as u8" } else { "x as u8" };
+        src.push_str(&format!(
+            "    {{ let mut bad = 0u32; let mut first = 0u32; for x in 0..=65535u32 {{ let got = SignatureScheme(x as u16).{m}().0; if got != {expect} {{ if bad == 0 {{ first = x; }} bad += 1; }} }} println!(\"SPLIT {m} {ret} {{}} {{}}\", bad, first); }}\n"
+        ));
     }
     src.push_str("}\n");
     if std::fs::read_to_string(&gen).ok().as_deref() != Some(&src) {
@@ -334,6 +342,22 @@ fn check_unlisted_consts(cx: &Cx, sink: &mut Sink) -> (usize, Vec<String>) {
         n.strip_suffix("reserved").map(|x| x.to_string()).unwrap_or(n)
     };
     let mut judged = 0;
+    for l in out.lines() {
+        let f: Vec<&str> = l.split_whitespace().collect();
+        if f.len() == 5 && f[0] == "SPLIT" {
+            sink.evals += 65536;
+            judged += 1;
+            let (bad, first) = (f[3].parse::<u64>().unwrap_or(0), f[4].parse::<u64>().unwrap_or(0));
+            sink.count("typed accessors of SignatureScheme", if bad == 0 { "split correctly" } else { "WRONG" });
+            if bad != 0 {
+                sink.violation(
+                    format!("split SignatureScheme::{}", f[1]),
+                    format!("SignatureScheme::{}() returns a {} that is not the {} byte for {} of the 65536 values (first: {:#06x})", f[1], f[2], if f[2] == "HashAlgorithm" { "high" } else { "low" }, bad, first),
+                    json!({"kind":"unlisted-const","type":"SignatureScheme","name":f[1]}),
+                );
+            }
+        }
+    }
     let found: Vec<(String, String, u64)> = out
         .lines()
         .filter_map(|l| {
@@ -432,7 +456,8 @@ fn main() {
                     let mut s = Sink::new();
                     check_unlisted_consts(&cx, &mut s);
                     let key = format!("const {}::{}", case["type"].as_str().unwrap(), case["name"].as_str().unwrap());
-                    msgs.extend(s.viol.iter().filter(|v| v.key == key).map(|v| v.what.clone()));
+                    let key2 = format!("split {}::{}", case["type"].as_str().unwrap(), case["name"].as_str().unwrap());
+                    msgs.extend(s.viol.iter().filter(|v| v.key == key || v.key == key2).map(|v| v.what.clone()));
                 }
                 _ => machinery_failure(run.prop, "unknown replay kind"),
             }
@@ -516,8 +541,9 @@ fn main() {
     // operations of the registry types that this check does not know (added after it was written): listed, not judged
     {
         const KNOWN: &[&str] = &["from_u16", "hash_alg", "sign_alg", "is_reserved", "key_bits", "new", "to_be_bytes"];
+        let typed: Vec<String> = vchecks::registries::scan_split_methods().into_iter().map(|m| m.0).collect();
         let types: Vec<&str> = cx.regs.iter().map(|r| r.reg.ty).chain(["TlsCipherSuiteID"]).collect();
-        let unknown_api: Vec<String> = vchecks::registries::scan_impl_methods().into_iter().filter(|(t, m)| types.contains(&t.as_str()) && !KNOWN.contains(&m.as_str())).map(|(t, m)| format!("{}::{}", t, m)).collect();
+        let unknown_api: Vec<String> = vchecks::registries::scan_impl_methods().into_iter().filter(|(t, m)| types.contains(&t.as_str()) && !KNOWN.contains(&m.as_str()) && !(t == "SignatureScheme" && typed.contains(m))).map(|(t, m)| format!("{}::{}", t, m)).collect();
         cov.insert("public_methods_of_registry_types_not_exercised".into(), json!(unknown_api));
     }
     cov.insert("unlisted_constants_judged_by_name".into(), json!(njudged));
